@@ -99,3 +99,30 @@ META.update({
 
 ENGINES.append({"name": "vq-cc", "path": "harness/vq-cc", "serves_properties": ["C09", "C10", "C15"],
                 "kind_free_text": "component monitors: CUBIC/BBR through the CongestionController trait against a shadow of outstanding packets; RttEstimator/Pto against an RFC 9002 transcription; two KeySets with an instrumented key joined by a hostile channel; natively and under Miri"})
+
+
+ENGINES.extend([
+    {"name": "vq-sync", "path": "harness/vq-sync", "serves_properties": ["C17"],
+     "kind_free_text": "bounded multi-threaded scenarios over s2n_quic_core::sync (spsc, worker, cursor, atomic_waker) with a history monitor, one scenario+seed per process, natively with failpoints (hook H3) and under Miri, ThreadSanitizer and AddressSanitizer"},
+    {"name": "vq-dc", "path": "harness/vq-dc", "serves_properties": ["C18", "C19", "C20"],
+     "kind_free_text": "s2n-quic-dc monitors: packet round trip / tamper rejection at codec, path-secret map and data path (real aws-lc keys); replay window and key-id issue against a model incl. concurrent callers; dc streams in the bach simulator with a seeded faulty network and over loopback TCP with a PRF byte oracle"},
+])
+
+META.update({
+    "C17": {"engine": "vq-sync", "design_ref": "DESIGN.md section 4, C17",
+            "technique": "runtime monitoring + sanitizers: history monitor (exactly-once / in-order / bounded wake-up) over sampled thread interleavings; Miri (data races, weak memory, borrows, deadlock), ThreadSanitizer and AddressSanitizer on the same scenarios",
+            "text": "26 bounded scenarios (capacity 2, a few batches, close/drop of either side at every point, cloned handles) are executed tens of thousands of times per run on real threads with failpoints between the publication points (hook H3), and a few hundred times under Miri, where every seed is another preemption schedule and weak-memory outcome; thorough adds TSan and ASan builds. The monitor's ledger decides delivery/order/wake-up, the tools decide races and memory errors. Interleavings are sampled, never enumerated: the verdict is 'held on the N distinct interleavings observed'.",
+            "note": "Trusted base: the harness' thread-parking executor (all its shared state is Relaxed atomics, so it adds no happens-before edge), Miri's C11 emulation, the sanitizer runtimes. wakeup_queue is not covered."},
+    "C18": {"engine": "vq-dc", "design_ref": "DESIGN.md section 4, C18",
+            "technique": "runtime monitoring: round-trip and tamper-rejection oracles at three boundaries (codec+crypto, path-secret map as victim with state snapshot before/after, map-keyed data path), genuine packet as positive control",
+            "text": "Tens of thousands of genuine packets of all eight kinds per run, millions of single- and multi-byte mutants, truncations, splices and random strings; no mutant may open or change map entries, key ids, handshake requests or emit acceptance events, the genuine packet must.",
+            "note": "Trusted base: aws-lc, the harness' known-secret insertion through the public dc::Endpoint / dc::Path API. Two protocol-level known findings (UnknownPathSecret queue id, recovery bit of retransmissions) are listed in known_findings.jsonl."},
+    "C19": {"engine": "vq-dc", "design_ref": "DESIGN.md section 4, C19",
+            "technique": "runtime monitoring: reference-model comparison of the replay window per key id, at-most-once / must-accept oracles over concurrent receivers, pairwise-distinct and StaleKey-floor oracles over concurrent sealers (also under ThreadSanitizer)",
+            "text": "Millions of key ids per run against the model (window edges 893-898, huge jumps, maximum id), thousands of concurrent receiver and sealer rounds on 2-8 threads with genuine StaleKey packets arriving.",
+            "note": "Trusted base: the model in vq-dc/src/c19.rs. Thread interleavings are sampled. Miri gives no signal here (aliasing report inside third-party bitvec 1.1.1 on the first window shift)."},
+    "C20": {"engine": "vq-dc", "design_ref": "DESIGN.md section 4, C20",
+            "technique": "runtime monitoring: position-keyed PRF byte oracle at both applications + bounded-failure deadline in virtual time over a seeded faulty network (incl. per-packet fault enumeration) and loopback TCP",
+            "text": "Hundreds of stream scenarios per run (loss 0.1-30 %, bursts, k-th packet drops enumerated, duplication, reordering, MTU 1250-8940, vanished/mute/forgetful peers, arbitrary read/write/shutdown/drop orders); reads are checked at their absolute position, clean EOF only at the written length, failures must surface within the idle timeout.",
+            "note": "Trusted base: bach's network model with the harness' fault queue, the crate's testing Client/Server. Delivery itself is not claimed by C20: streams that error out with a live peer are counted, not flagged."},
+})
